@@ -108,6 +108,9 @@ func (s *Sorts) Sort(t types.Type) string {
 
 func (s *Sorts) sort(t types.Type) string {
 	if tp, ok := t.(*types.TypeParam); ok {
+		if typeParamIsString(tp) {
+			return "String"
+		}
 		n := "TP_" + sanitize(tp.Obj().Name())
 		if !s.done[n] {
 			s.done[n] = true
@@ -332,4 +335,29 @@ func sortedKeys[V any](m map[string]V) []string {
 	}
 	sort.Strings(ks)
 	return ks
+}
+
+
+// typeParamIsString reports whether every type in the constraint's type set has underlying type string (K ~string).
+func typeParamIsString(tp *types.TypeParam) bool {
+	iface, ok := tp.Constraint().Underlying().(*types.Interface)
+	if !ok || iface.NumEmbeddeds() == 0 {
+		return false
+	}
+	for i := 0; i < iface.NumEmbeddeds(); i++ {
+		u, ok := iface.EmbeddedType(i).(*types.Union)
+		if !ok {
+			if b, ok := iface.EmbeddedType(i).Underlying().(*types.Basic); ok && b.Info()&types.IsString != 0 {
+				continue
+			}
+			return false
+		}
+		for j := 0; j < u.Len(); j++ {
+			b, ok := u.Term(j).Type().Underlying().(*types.Basic)
+			if !ok || b.Info()&types.IsString == 0 {
+				return false
+			}
+		}
+	}
+	return true
 }
